@@ -11,6 +11,7 @@ import NemoVerif.Lemmas.GenLog
 import NemoVerif.Lemmas.PipelineOpts
 import NemoVerif.Lemmas.RailsInterp
 import NemoVerif.Lemmas.RailsRefine
+import NemoVerif.Lemmas.RailsOpaque
 import NemoVerif.Lemmas.GenLogCounts
 import NemoVerif.Lemmas.GenLogTurn
 
@@ -416,6 +417,155 @@ open NemoVerif.RailsInterp in
     rail rejects "evil" ⇒ refusal -/
 example : specTrace exSetup (some (true, false, false, true)) "hi" (some "evil") =
     [.railCall "input" 0 "in0" "hi", .railCall "input" 1 "in1" "hi", .railCall "output" 0 "out0" "evil", .utter "no"] := by decide
+
+/-! ## Wave 4 — the caller's texts are data: `create event …` resolves a reference once, the interpreter never looks into a text
+
+  Seeded change C16-e (two cooperating edits: `_process_start_action` resolves `$name` references INSIDE dict parameters too,
+  `create_event` tests `v.startswith("$")`) made a text that itself starts with `$` be resolved a second time.  The model now
+  contains both reference-replacing sites with their shapes as generated data (`Generated.C16Resolve`, read off the source on
+  every run by `harness/translate/c16.py::resolve_shapes`); with the seeded change `startActionNested` becomes `true`,
+  `createEventAction_eq` (`rfl` per `create event` statement) and every transition lemma about a `create event` statement fail. -/
+
+open NemoVerif.RailsInterp NemoVerif.Generated.C16Resolve in
+/-- **One resolution.**  For every `create event …` statement of the generated llm_flows.co program and every context: what the
+    action `create_event` builds behind `_process_start_action` — both reference-replacing sites in the shape the CURRENT source
+    has — is the specification `createdEvent`: each `$name` written in the program replaced by the value of that context variable,
+    exactly once (statements the program does not contain: `none` on both sides). -/
+theorem create_event_resolves_once (params : String) (σ : V1Interp.Ctx) :
+    createEventAction startActionNested createEventIndexTest params σ = createdEvent params σ :=
+  createEventAction_eq params σ
+
+open NemoVerif.RailsInterp NemoVerif.Generated.C16Resolve in
+/-- **The text is not looked at again**: whatever string `t` the variable holds — `"$100 is too much"`, `"$bot_message"`, `""`,
+    `"{{ x }}"` … — the events `create event UserMessage(text=$user_message)`, `create event BotMessage(text=$bot_message)` and
+    `create event StartUtteranceBotAction(script=$user_message | $bot_message)` carry exactly `t`. -/
+theorem create_event_text_opaque (σ : V1Interp.Ctx) (t : String) :
+    (σ.get "user_message" = .str t →
+      createEventAction startActionNested createEventIndexTest "{\"event\": {\"_type\": \"UserMessage\", \"text\": \"$user_message\"}}" σ
+        = some (.other "UserMessage" [("text", .str t)]) ∧
+      createEventAction startActionNested createEventIndexTest "{\"event\": {\"_type\": \"StartUtteranceBotAction\", \"script\": \"$user_message\"}}" σ
+        = some (.other "StartUtteranceBotAction" [("script", .str t)])) ∧
+    (σ.get "bot_message" = .str t →
+      createEventAction startActionNested createEventIndexTest "{\"event\": {\"_type\": \"BotMessage\", \"text\": \"$bot_message\"}}" σ
+        = some (.other "BotMessage" [("text", .str t)]) ∧
+      createEventAction startActionNested createEventIndexTest "{\"event\": {\"_type\": \"StartUtteranceBotAction\", \"script\": \"$bot_message\"}}" σ
+        = some (.other "StartUtteranceBotAction" [("script", .str t)])) := by
+  refine ⟨fun h => ⟨?_, ?_⟩, fun h => ⟨?_, ?_⟩⟩ <;> rw [createEventAction_eq] <;> simp [createdEvent, h]
+
+open NemoVerif.RailsInterp in
+/-- non-vacuity: a context in which `$user_message` is a `$`-text -/
+example : V1Interp.Ctx.get [("user_message", V1Interp.V.str "$100 is too much")] "user_message" = V1Interp.V.str "$100 is too much" := by decide
+
+open NemoVerif.RailsInterp in
+/-- **`double_resolution_witness`** (kernel-checked, finite): a runtime whose `_process_start_action` ALSO resolves references inside
+    dict parameters (`startActionResolve true`, the first half of seeded change C16-e) hands `create_event` the text itself, and
+    `create_event` resolves it again — with either shape of its test: the user text `$100 is too much` becomes `None`
+    (⇒ `"\n".join([None])` raises TypeError in `generate_async`), the bot message `$user_message` becomes the USER's text; a text
+    that does not start with `$` is unaffected, and the empty text makes `v[0]` raise (`none`) unless the test is `startswith`. -/
+theorem double_resolution_witness :
+    createEventAction true false "{\"event\": {\"_type\": \"UserMessage\", \"text\": \"$user_message\"}}" [("user_message", .str "$100 is too much")]
+      = some (.other "UserMessage" [("text", .none)]) ∧
+    createEventAction true true "{\"event\": {\"_type\": \"UserMessage\", \"text\": \"$user_message\"}}" [("user_message", .str "$100 is too much")]
+      = some (.other "UserMessage" [("text", .none)]) ∧
+    createEventAction true false "{\"event\": {\"_type\": \"BotMessage\", \"text\": \"$bot_message\"}}" [("user_message", .str "hi"), ("bot_message", .str "$user_message")]
+      = some (.other "BotMessage" [("text", .str "hi")]) ∧
+    createEventAction true false "{\"event\": {\"_type\": \"UserMessage\", \"text\": \"$user_message\"}}" [("user_message", .str "a $5 thing")]
+      = some (.other "UserMessage" [("text", .str "a $5 thing")]) ∧
+    createEventAction true true "{\"event\": {\"_type\": \"UserMessage\", \"text\": \"$user_message\"}}" [("user_message", .str "")] = none ∧
+    createEventAction true false "{\"event\": {\"_type\": \"UserMessage\", \"text\": \"$user_message\"}}" [("user_message", .str "")]
+      = some (.other "UserMessage" [("text", .str "")]) := by
+  refine ⟨?_, ?_, ?_, ?_, ?_, ?_⟩ <;> decide
+
+open NemoVerif.RailsInterp in
+/-- **`interp_text_is_opaque`** — the trace and the reply of the interpreter on the generated llm_flows.co program are independent of
+    what the texts ARE, except through the verdict functions.  For EVERY re-encoding `φ : String → String` of the texts (arbitrary:
+    it may map a harmless text to `$100 …`, to the name of a context variable, to a template, to the empty text …), every
+    well-formed set-up `s` and the set-up `s'` that is `s` seen through `φ` (`Renamed`: same rails, every verdict function
+    transported along `φ`, refusal and LLM answer re-encoded), every option value, user text and bot message: with enough fuel, the
+    loop of `generate_events` on `s'` with the re-encoded texts executes exactly the re-encoded trace of the run on `s` — the same
+    rail actions in the same order, the same LLM calls, each text seen by a rail and the utterance re-encoded by `φ`, nothing else. -/
+theorem interp_text_is_opaque (φ : String → String) (s s' : Setup) (hwf : s.WF) (hr : Renamed φ s s')
+    (o : Option (Bool × Bool × Bool × Bool)) (user : String) (bot : Option String) (hb : BotOK o bot) :
+    ∃ N, ∀ fuel, N ≤ fuel →
+      driveTraceN fuel s' o (φ user) (bot.map φ) = (driveTraceN fuel s o user bot).map (List.map (Obs.mapText φ)) := by
+  obtain ⟨N, h⟩ := interp_trace_is_spec s hwf o user bot hb
+  obtain ⟨N', h'⟩ := interp_trace_is_spec s' (hr.wf hwf) o (φ user) (bot.map φ) (hb.map φ)
+  refine ⟨max N N', fun f hf => ?_⟩
+  rw [h f (by omega), h' f (by omega), specTrace_natural φ hr o user bot hb]
+  rfl
+
+open NemoVerif.RailsInterp in
+/-- … in particular the reply: the utterances of the two runs correspond under `φ` -/
+theorem interp_reply_is_opaque (φ : String → String) (s s' : Setup) (hwf : s.WF) (hr : Renamed φ s s')
+    (o : Option (Bool × Bool × Bool × Bool)) (user : String) (bot : Option String) (hb : BotOK o bot) :
+    ∃ N, ∀ fuel, N ≤ fuel → ∃ tr, driveTraceN fuel s o user bot = some tr ∧
+      driveTraceN fuel s' o (φ user) (bot.map φ) = some (tr.map (Obs.mapText φ)) := by
+  obtain ⟨N, h⟩ := interp_trace_is_spec s hwf o user bot hb
+  obtain ⟨N', h'⟩ := interp_text_is_opaque φ s s' hwf hr o user bot hb
+  exact ⟨max N N', fun f hf => ⟨_, h f (by omega), by rw [h' f (by omega), h f (by omega)]; rfl⟩⟩
+
+open NemoVerif.RailsInterp in
+/-- **the text itself comes back, whatever it is** (the documented row "input only, allowed", interpreter level): input rails
+    selected, dialog and output not; every input rail is a check rail that lets `user` pass ⇒ the last step of the interpreter's
+    trace is the utterance of exactly `user` — for EVERY string `user`. -/
+theorem interp_echo_any_text (s : Setup) (hwf : s.WF) (r : Bool) (user : String)
+    (hall : ∀ x ∈ s.input, ∃ a, x.kind = .check a ∧ a user = true) :
+    ∃ N, ∀ fuel, N ≤ fuel → ∃ tr, driveTraceN fuel s (some (true, false, r, false)) user none = some (tr ++ [Obs.utter user]) := by
+  obtain ⟨N, h⟩ := interp_trace_is_spec s hwf (some (true, false, r, false)) user none (fun _ ho => by simp [selO] at ho)
+  have key : ∀ (rs : List IRail) (k : Nat), (∀ x ∈ rs, ∃ a, x.kind = .check a ∧ a user = true) →
+      (loopSpec "input" k rs user).2 = some user := by
+    intro rs
+    induction rs with
+    | nil => intro k _; rfl
+    | cons x xs ih =>
+      intro k hx
+      obtain ⟨a, hk, ha⟩ := hx x (List.mem_cons_self ..)
+      simp only [loopSpec, hk, ha, if_true]
+      exact ih (k + 1) (fun y hy => hx y (List.mem_cons_of_mem _ hy))
+  refine ⟨N, fun f hf => ?_⟩
+  rw [h f hf]
+  unfold specTrace
+  by_cases hc : (!s.input.isEmpty && selI (some (true, false, r, false))) = true
+  · simp only [hc, if_true, key s.input 0 hall]
+    exact ⟨(loopSpec "input" 0 s.input user).1, by simp [afterSpec, selD, selO]⟩
+  · simp only [hc, Bool.false_eq_true, if_false]
+    exact ⟨[], by simp [afterSpec, selD, selO]⟩
+
+open NemoVerif.RailsInterp in
+/-- non-vacuity of `interp_text_is_opaque`: the concrete set-up seen through `φ = ("$" ++ ·)` (every text gets a dollar sign in
+    front: user text `hi` ↦ `$hi`, `bot_message` ↦ `$bot_message`) is a `Renamed` set-up … -/
+def exSetupDollar : Setup :=
+  { input := [⟨"in0", "a_in0", .check (fun t => t != "$bad")⟩, ⟨"in1", "a_in1", .rewrite (fun t => t ++ "!")⟩],
+    output := [⟨"out0", "a_out0", .check (fun t => t != "$evil")⟩], refusal := "$no", llmText := "$LLM" }
+
+theorem dollar_ne (t b : String) : ("$" ++ t != "$" ++ b) = (t != b) := by
+  have : ("$" ++ t = "$" ++ b) = (t = b) := propext (String.append_right_inj "$")
+  simp only [bne, BEq.beq]
+  simp [this]
+
+open NemoVerif.RailsInterp in
+theorem exSetupDollar_renamed : Renamed ("$" ++ ·) exSetup exSetupDollar where
+  input := by
+    refine .check "in0" "a_in0" _ _ (fun t => ?_) (.rewrite "in1" "a_in1" _ _ (fun t => ?_) .nil)
+    · exact dollar_ne t "bad"
+    · show ("$" ++ t) ++ "!" = "$" ++ (t ++ "!")
+      exact String.append_assoc ..
+  output := by
+    refine .check "out0" "a_out0" _ _ (fun t => ?_) .nil
+    exact dollar_ne t "evil"
+  refusal := rfl
+  llmText := rfl
+
+open NemoVerif.RailsInterp in
+/-- … and the interpreter loop on it, evaluated in the kernel (finite): bot message `$user_message`, user text `$bot_message` pass all
+    rails and come back as they are; `$evil` is refused -/
+example : driveTraceN 60 exSetupDollar (some (true, false, false, true)) "$bot_message" (some "$user_message") =
+    some [.railCall "input" 0 "in0" "$bot_message", .railCall "input" 1 "in1" "$bot_message", .railCall "output" 0 "out0" "$user_message",
+      .utter "$user_message"] := by decide +kernel
+open NemoVerif.RailsInterp in
+example : driveTraceN 60 exSetupDollar (some (true, false, false, false)) "$100 is too much" none =
+    some [.railCall "input" 0 "in0" "$100 is too much", .railCall "input" 1 "in1" "$100 is too much", .utter "$100 is too much!"] := by
+  decide +kernel
 
 /-! ## The generation log: LLM-call count and executed actions
 
